@@ -83,6 +83,8 @@ pub struct Msg {
     pub semi: bool,
     /// white space before the first unit (a message without units is just this)
     pub lead: Vec<u8>,
+    /// white space between the last unit and the terminator (e.g. CR of a CR LF)
+    pub trail: Vec<u8>,
 }
 
 impl Msg {
@@ -97,6 +99,7 @@ impl Msg {
         if self.semi && !self.units.is_empty() {
             out.push(b';');
         }
+        out.extend_from_slice(&self.trail);
         out.push(b'\n');
     }
     pub fn render(&self) -> Vec<u8> {
@@ -280,7 +283,7 @@ impl Scenario {
             writeln!(s, "knob {k}={v}").unwrap();
         }
         for m in &self.msgs {
-            writeln!(s, "msg semi={} lead={}", m.semi as u8, hex(&m.lead)).unwrap();
+            writeln!(s, "msg semi={} lead={} trail={}", m.semi as u8, hex(&m.lead), hex(&m.trail)).unwrap();
             for u in &m.units {
                 writeln!(s, "{}", unit_line(u, "unit")).unwrap();
                 if let Some(g) = &u.good {
@@ -322,6 +325,10 @@ impl Scenario {
                     units: vec![],
                     semi: m.get("semi") == Some(&"1"),
                     lead: unhex(m.get("lead").ok_or("msg lacks lead")?)?,
+                    trail: match m.get("trail") {
+                        Some(t) => unhex(t)?,
+                        None => Vec::new(),
+                    },
                 });
             } else if line.starts_with("unit ") {
                 cur.as_mut().ok_or("unit outside msg")?.units.push(parse_unit(line)?);
